@@ -384,8 +384,8 @@ func cmdCheck(args []string) int {
 	var reported []confirmed
 	nViol := 0
 	replayed := 0
+	seen := map[string]bool{}
 	for _, rr := range results {
-		seen := map[string]bool{}
 		for _, v := range rr.st.Violations {
 			if seen[v.Label] {
 				continue
